@@ -58,3 +58,62 @@ func isExternal(key uintptr) bool {
 	_, ok := externals.Load(key)
 	return ok
 }
+
+// FileWriter wraps f so that writes become scheduling points that are enabled
+// only when the descriptor is writable (poll(2) POLLOUT). A write is split into
+// chunks of at most 4096 bytes (PIPE_BUF: a pipe that polls writable accepts
+// that much without blocking), so a writer facing a full pipe yields to the
+// other goroutines instead of parking its OS thread in the kernel, which the
+// cooperative scheduler could not see. Writes larger than PIPE_BUF are not
+// atomic on a pipe anyway.
+func FileWriter(f *os.File) *fileWriter { return &fileWriter{f} }
+
+type fileWriter struct{ f *os.File }
+
+const writeChunk = 4096
+
+func (w *fileWriter) Write(p []byte) (int, error) {
+	e, g := me()
+	if w.f == nil || e == nil {
+		return w.f.Write(p)
+	}
+	rc, err := w.f.SyscallConn()
+	if err != nil {
+		return w.f.Write(p)
+	}
+	total := 0
+	for {
+		chunk := p
+		if len(chunk) > writeChunk {
+			chunk = chunk[:writeChunk]
+		}
+		e.point(g, &op{kind: opCustom, label: "file-write", pred: func() bool {
+			ready := true
+			rc.Control(func(fd uintptr) {
+				for {
+					fds := []unix.PollFd{{Fd: int32(fd), Events: unix.POLLOUT}}
+					n, err := unix.Poll(fds, 0)
+					if err == unix.EINTR {
+						continue
+					}
+					if err == nil && n == 0 {
+						ready = false
+					}
+					return
+				}
+			})
+			return ready
+		}})
+		n, err := w.f.Write(chunk)
+		total += n
+		if err != nil || n < len(chunk) {
+			return total, err
+		}
+		p = p[len(chunk):]
+		if len(p) == 0 {
+			return total, nil
+		}
+	}
+}
+
+func (w *fileWriter) WriteString(s string) (int, error) { return w.Write([]byte(s)) }
